@@ -654,6 +654,22 @@ func (c *Cluster) RequestJoin(k, i int) error {
 	})
 }
 
+// RequestUnknown hands validator i a correctly signed internal transaction of a
+// type this version does not know (type 7, concerning key k): the application
+// accepts it like any other, the validator set must not change.
+func (c *Cluster) RequestUnknown(k, i int) error {
+	return c.guard(fmt.Sprintf("IX(%d,%d)", k, i), func() error {
+		if !c.usable(i) {
+			return fmt.Errorf("not usable")
+		}
+		itx := hg.NewInternalTransaction(hg.TransactionType(7), *mkPeer(k))
+		itx.Sign(Key(k))
+		c.Nodes[i].Node.VAddInternalTransaction(itx)
+		c.Nodes[i].Itxs = append(c.Nodes[i].Itxs, itx)
+		return nil
+	})
+}
+
 // RequestLeave makes node i submit its own PEER_REMOVE (core.leave without the wait).
 func (c *Cluster) RequestLeave(i int) error {
 	return c.guard(fmt.Sprintf("L(%d)", i), func() error {
